@@ -245,9 +245,13 @@ int main(void)
 			memset(&it, 0xA5, sizeof(it));
 			lzma_index_iter_init(&it, idx[k]);
 			lzma_index_iter_mode mode = (lzma_index_iter_mode)hp_u64(l.tok[2]);
-			int cnt = 0;
+			// a correct iteration returns at most one item per Stream and Block: stop a runaway iteration
+			// (e.g. a cycle in a damaged tree) instead of printing without end
+			const uint64_t limit = lzma_index_stream_count(idx[k]) + lzma_index_block_count(idx[k]) + 8;
+			uint64_t cnt = 0;
 			while (!lzma_index_iter_next(&it, mode)) {
 				if (cnt++) printf(" | ");
+				if (cnt > limit) { printf("OVERRUN"); break; }
 				put_item(&it);
 			}
 			if (cnt == 0) printf("empty");
